@@ -157,8 +157,23 @@ func executeWith(h mx.History, faults []sched.Fault, rules []sched.Rule, earlyCl
 	// let every background writer that was handed a run finish (after an error the caller has not
 	// gone through Finalise, which is what normally waits for them). On a busy machine that can
 	// take a while; CleanUp is only asserted once the writers are quiescent.
+	// (Finalise writes the last run itself, on the caller's goroutine: those writes pass the writer
+	// steps without a hand-off and are left out of the count)
 	quiescent := func() bool {
-		return sc.Count("write-received") >= sc.Count("push-handoff") && sc.Count("write-received") == sc.Count("write-return-buffer")
+		caller, handoffs, received, returned := -1, 0, 0, 0
+		for _, e := range sc.Events() {
+			switch {
+			case caller < 0 && strings.HasPrefix(e.Step, "cycle-start"):
+				caller = e.GID
+			case e.Step == "push-handoff":
+				handoffs++
+			case e.Step == "write-received" && e.GID != caller:
+				received++
+			case e.Step == "write-return-buffer" && e.GID != caller:
+				returned++
+			}
+		}
+		return received == handoffs && returned == received
 	}
 	early := false
 	if earlyCleanUp && !res.timeout && res.panic == nil && res.out.FirstError != nil && !quiescent() {
